@@ -128,6 +128,11 @@ def main():
             # optional component: turbulence forcing (needs a cubic box); its random stream and amplitudes are part of the dump
             cfg["turbulence"] = dict(dt=1e-6 * scale, power=10 ** r.uniform(5, 9) * scale ** 2 / (1e-3 * scale) ** 3 * 1e-9, seed=r.randint(1, 10 ** 5),
                                      commensurate=[0.25, 0.5, 0.125, 2, None, 0.25][i % 6])
+        if i % 3 == 1:
+            # optional component: the restartable hydro mask (a sphere in which the initial condition, rescaled, is
+            # re-imposed after every step); its stored reference state is part of the dump
+            cfg["mask"] = dict(center=[anchor[d] + r.uniform(0.4, 0.6) * sides[d] for d in range(3)], radius=r.uniform(0.2, 0.35) * min(sides),
+                               fdens=r.choice([0.5, 1., 2.]), fvel=r.choice([1., 0.5]), fpres=r.choice([0.5, 1.]), delta_t=0.)
         ks = list(range(1, N)) if not quick else sorted(set([1, 2, N - 1] + [r.randint(3, N - 2) for _ in range(4)]))
         for k in ks:
             jobs.append((i, cfg, N, [k], exe, root, None))
@@ -160,6 +165,8 @@ def main():
                 tot[k] = tot.get(k, 0) + v
             if out["st"].get("restarts"):
                 distinct.add((out["i"], tuple(out["stops"])))
+                if out["cfg"].get("mask"):
+                    tot["restarts_with_hydro_mask"] = tot.get("restarts_with_hydro_mask", 0) + out["st"]["restarts"]
                 if out["cfg"].get("turbulence"):
                     tot["restarts_with_turbulence_forcing"] = tot.get("restarts_with_turbulence_forcing", 0) + out["st"]["restarts"]
             if len(chk.coverage["samples"]) < 3:
@@ -185,7 +192,7 @@ def main():
     cov["monitor_counters"] = tot
     chk.assumptions += ["one thread (the property's bit-identity clause); wall-clock timers and the re-seeded photon stream are not part of the digest"]
     if "--replay" not in sys.argv:
-        chk.require_nonzero(restarts=tot.get("restarts"), steps=tot.get("steps_compared"))
+        chk.require_nonzero(restarts=tot.get("restarts"), steps=tot.get("steps_compared"), with_mask=tot.get("restarts_with_hydro_mask"), with_turbulence=tot.get("restarts_with_turbulence_forcing"))
     chk.finish()
 
 
